@@ -31,8 +31,11 @@ BIN = {'+': operator.add, '-': operator.sub, '*': operator.mul, '/': operator.tr
        '>': operator.gt, '>=': operator.ge, '<': operator.lt, '<=': operator.le, '&': operator.and_, '|': operator.or_}
 REFLECTABLE = ['+', '-', '*', '/', '**']
 FUNCS1 = {'sin': np.sin, 'exp': lambda x: np.exp(np.clip(x, -50, 50)), 'twice': lambda x: x * 2, 'abs': np.abs, 'sq': lambda x: x * x,
-          'identity': lambda x: x, 'asarray': lambda x: np.asarray(x)}
-FUNCS2 = {'add': lambda x, y: x + y, 'maximum': np.maximum, 'hyp': lambda x, y: np.sqrt(x * x + y * y), 'first': lambda x, y: x}
+          'identity': lambda x: x, 'asarray': lambda x: np.asarray(x),
+          # functions that hand back a VIEW of their argument (same memory, another array object)
+          'slice_view': lambda x: x[...], 'reshape_view': lambda x: x.reshape(x.shape), 'ravel_view': lambda x: x.ravel().reshape(x.shape)}
+FUNCS2 = {'add': lambda x, y: x + y, 'maximum': np.maximum, 'hyp': lambda x, y: np.sqrt(x * x + y * y), 'first': lambda x, y: x,
+          'second_view': lambda x, y: y[...]}
 FUNCS3 = {'where': lambda x, y, z: np.where(x > 0, y, z), 'fma': lambda x, y, z: x * y + z}
 
 
